@@ -487,6 +487,8 @@ class Ctx:
         self.traces = 0
         self.notes = []
         self.exhaustive = None
+        self.generated_obligations = {}   # name -> True (closed under the global context) / False; theorems of a file regenerated by this run
+        self.generated_checker = None
         self.known = [f for f in load_known_findings() if f.get('property') == pid]
 
     # -- statistics
@@ -524,6 +526,13 @@ class Ctx:
         except BrokenPipeError:
             pass
         self.violations.append((path, what))
+
+    def obligation_failed(self, names, detail, theorem, case=None):
+        """a proof obligation (of Props/<ID>.v or of a file generated by this run) no longer checks and no concrete failing
+        input was found: VIOLATION ... no-failing-input-found; the replay file names the obligation"""
+        c = dict(case or {})
+        c['broken_obligations'] = list(names)
+        self.violation(c, None, None, theorem, 'proof obligations no longer check: %s: %s' % (', '.join(names), detail[-1500:]), no_input=True)
 
     def known_finding(self, fid):
         self.known_hits[fid] = self.known_hits.get(fid, 0) + 1
@@ -592,8 +601,8 @@ class Ctx:
             if not okc:
                 self.violation({'coqchk': self.pid}, None, None, 'coqchk', 'coqchk does not accept the compiled closure of Props/%s.vo or reports axioms: %s' % (self.pid, outc[-800:]), no_input=True)
         wall = time.time() - self.t0
-        n_obl = len(obl['theorems'])
-        discharged = n_obl if obl['ok'] else 0
+        n_obl = len(obl['theorems']) + len(self.generated_obligations)
+        discharged = (len(obl['theorems']) if obl['ok'] else 0) + sum(1 for v in self.generated_obligations.values() if v)
         if not obl['ok']:
             self.violation({'props_file': obl['file']}, None, None, 'Props/%s.v' % self.pid,
                            'proof obligations no longer check: ' + obl['log'][-1500:], no_input=True)
@@ -625,6 +634,11 @@ class Ctx:
             'known_findings_hit': self.known_hits,
             'notes': self.notes,
         }
+        if self.generated_obligations:
+            cov['generated_theorems'] = sorted(self.generated_obligations)
+            cov['generated_theorems_failed'] = sorted(k for k, v in self.generated_obligations.items() if not v)
+            if self.generated_checker:
+                cov['checker_cmd'] += '; ' + self.generated_checker
         if chk is not None:
             cov['coqchk'] = chk
         if self.exhaustive is not None:
